@@ -86,6 +86,7 @@ PureConnect(m) == m.f.conn /\ ~m.f.close /\ ~m.f.hb /\ ~m.f.ack /\ ~m.f.rej
 PureClose(m)   == m.f.close /\ ~m.f.conn /\ ~m.f.hb /\ ~m.f.ack /\ ~m.f.rej
 PureData(m)    == ~m.f.conn /\ ~m.f.close /\ ~m.f.hb /\ ~m.f.ack /\ ~m.f.rej
 IsAck(m)       == m.f.ack
+PureHeartbeat(m) == m.f.hb /\ ~m.f.conn /\ ~m.f.close /\ ~m.f.ack /\ ~m.f.rej
 \* the negative form of an acknowledgement, as hstrp_send_ack(reject=True) forms it
 PureReject(m)  == m.f.rej /\ ~m.f.ack /\ ~m.f.hb /\ ~(m.f.conn /\ m.f.close)      \* also the REJECT of our CONNECT / CLOSE (type bit kept)
 RejectOfConnectOrClose(m) == PureReject(m) /\ (m.f.conn \/ m.f.close)
@@ -110,6 +111,9 @@ MonRecv(mon, m, o, preConnected) ==
         ELSE IF judged /\ PureReject(m) /\ Acks(o.sent) # {} THEN "AcksNotAnswered(reject)"
         ELSE IF judged /\ RejectOfConnectOrClose(m) /\ o.connected # preConnected THEN "ConnectedIsLastConnectClose"
         ELSE IF Hbs(o.sent) # {} /\ ~preConnected THEN "HeartbeatOnlyWhenConnected"
+        \* ... in whatever form: a plain heartbeat heard while the link is down is answered by no datagram at all (an
+        \* "acknowledgement" of it carries the heartbeat bit back just as well - HEARTBEAT is not a confirmed message)
+        ELSE IF judged /\ PureHeartbeat(m) /\ ~preConnected /\ o.sent # <<>> THEN "HeartbeatOnlyWhenConnected"
         ELSE IF judged /\ Hbs(o.sent) # {} /\ ~m.f.hb THEN "HeartbeatOnlyEchoed"
         ELSE IF judged /\ (PureConnect(m) \/ ConnectAck(m)) /\ ~o.connected THEN "ConnectedIsLastConnectClose"
         ELSE IF judged /\ (PureClose(m) \/ CloseAck(m)) /\ o.connected THEN "ConnectedIsLastConnectClose"
